@@ -79,6 +79,18 @@ RICH = [
     {"cls": "C", "sources": {}, "steps": [["into", [["src", "T"]]], ["columns", [["py", "id"], ["py", "a"]]], ["insert", [["raw", 1], ["raw", "x"]]], ["on_conflict", [["py", "id"]]], ["do_update", [["py", "a"], ["raw", "y"]]], ["where", [["eq", ["col", "T", "a"], ["raw", "z"]]]]]},
     {"cls": "postgresql", "sources": {}, "steps": [["update", [["src", "T"]]], ["set", [["py", "a"], ["raw", 1]]], ["where", [["eq", ["col", "T", "id"], ["raw", 5]]]], ["returning", [["col", "T", "id"], ["py", "a"]]]]},
     {"cls": "C", "sources": {}, "steps": [["from_", [["src", "T"]]], ["delete", []], ["where", [["in", ["col", "T", "a"], [["raw", 1], ["raw", 2]]]]], ["orderby", [["col", "T", "a"]]], ["limit", [["py", 1]]]]},
+    # several items in every multi-valued slot: aggregate FILTER conditions, window PARTITION BY / ORDER BY, GROUP BY, CTEs, upsert targets/updates
+    {"cls": "C", "sources": {}, "steps": [["from_", [["src", "T"]]], ["select", [["col", "T", "a"],
+        ["as", ["call", ["call", ["fn", "Sum", [["col", "T", "b"]]], "filter", [["in", ["col", "T", "c"], [["raw", "eu"], ["raw", "us"]]], ["gt", ["col", "T", "b"], ["raw", 10]]]], "filter", [["eq", ["col", "T", "id"], ["raw", "paid"]], ["lt", ["col", "T", "a"], ["raw", 100]]]], "s"],
+        ["as", ["call", ["call", ["an", "Sum", [["col", "T", "b"]]], "over", [["col", "T", "a"], ["col", "T", "c"], ["col", "T", "id"]]], "orderby", [["col", "T", "b"], ["col", "T", "c"], ["col", "T", "id"]]], "w"]]],
+        ["groupby", [["col", "T", "a"], ["col", "T", "c"], ["col", "T", "id"]]], ["having", [["and", ["gt", ["fn", "Max", [["col", "T", "b"]]], ["raw", 1]], ["lt", ["fn", "Min", [["col", "T", "b"]]], ["raw", 9]]]]]]},
+    {"cls": "C", "sources": {}, "steps": [["with_", [["q", {"cls": "inherit", "sources": {}, "steps": [["from_", [["src", "U"]]], ["select", [["col", "U", "a"]]]]}], ["py", "c1"]]],
+        ["with_", [["q", {"cls": "inherit", "sources": {}, "steps": [["from_", [["src", "V"]]], ["select", [["col", "V", "b"]]]]}], ["py", "c2"]]],
+        ["from_", [["src", "T"]]], ["from_", [["src", "S"]]], ["join", [["src", "U"], ["enum", "JoinType", "left"]], {}, ["on", [["eq", ["col", "T", "a"], ["col", "U", "a"]]]]],
+        ["join", [["src", "Y"], ["enum", "JoinType", "inner"]], {}, ["using", [["py", "id"], ["py", "a"]]]], ["select", [["star", "T"], ["star", "U"], ["col", "S", "c"]]],
+        ["where", [["in", ["col", "T", "a"], [["raw", 3], ["raw", 1], ["raw", 2], ["raw", "z"], ["raw", "a"]]]]], ["force_index", [["py", "i1"], ["py", "i2"], ["py", "i3"]]], ["use_index", [["py", "u1"], ["py", "u2"]]]]},
+    {"cls": "C", "sources": {}, "steps": [["into", [["src", "T"]]], ["columns", [["py", "id"], ["py", "a"], ["py", "b"]]], ["insert", [["pytuple", [["raw", 1], ["raw", "x"], ["raw", 2]]], ["pytuple", [["raw", 3], ["raw", "y"], ["raw", 4]]]]],
+        ["on_conflict", [["py", "id"], ["py", "a"], ["py", "b"]]], ["do_update", [["py", "a"], ["raw", "y"]]], ["do_update", [["py", "b"]]], ["do_update", [["py", "c"], ["raw", 5]]], ["where", [["and", ["eq", ["col", "T", "a"], ["raw", "z"]], ["gt", ["col", "T", "b"], ["raw", 0]]]]]]},
 ]
 
 
@@ -290,7 +302,9 @@ def check_case(case):
 
 def valid_case(case):
     try:
-        if case.get("mode") in ("threads", "probe", "hashseed"):
+        if case.get("mode") == "hashseed":
+            return False  # every candidate would start child interpreters: the failing batch entry is kept as it is
+        if case.get("mode") in ("threads", "probe"):
             return True
         return isinstance(case["root"], dict) and all(k in KINDS and c in CTXS for k, c in case["ops"]) and len(case["ops"]) >= 1
     except (Exception, HarnessError):
